@@ -5,7 +5,9 @@ real run : real serializer + StreamDataProducer -> byte stream -> cut -> real St
            BufferedStreamDataConsumer (arbitrary fill sizes) -> delivered packets
 model run: the same chunks / fills through the Lean consumer+framer models (endriver); frames are decoded
            with the real one-shot codec (codec = parameter of the theorems)
-oracle   : delivered == sent, in order, once each; no error; nothing retained at the end
+oracle   : delivered == sent, in order, once each; no error; nothing retained at the end; the delivered packets are retained
+           by the harness as the application would keep them and still have the same value once the whole stream has been
+           received (a packet must not alias the receive buffer)
 """
 from __future__ import annotations
 
@@ -110,6 +112,8 @@ def model_input(case: dict, real: list[str]):
         return "jrawprod", [f"ser {core.hexs(t)}" for t in aux["texts"]]
     if case.get("kind") == "producer":
         return f"prod {case['spec']['sep']}", [f"ser {h or '-'}" for h in case["datas"]]
+    if any(ln.startswith("mutated ") for ln in real):
+        return None
     head = sers.model_head(case["spec"], case["path"], case.get("hint", 0))
     if head is None:
         return None
@@ -151,6 +155,9 @@ def oracle(case: dict, real: list[str]) -> str | None:
         return None
     if "crashed" in real:
         return "RuntimeError escaped from the consumer (write buffer exhausted)"
+    why = sd.mutated(real)
+    if why:
+        return why
     packets = [sers.dec_val(v) for v in case["packets"]]
     exp = []
     for p in packets + packets[-1:]:
@@ -231,6 +238,7 @@ def corpus() -> list[dict]:
                       "packets": [sers.enc_val(b"12345"), sers.enc_val(b"abcde")], "cuts": [3, 3, 1], "hint": 2, "conv": False})
     cases.append({"spec": {"k": "json", "use_lines": False, "limit": 64}, "path": "copy",
                   "packets": [sers.enc_val({"a": "}\""}), sers.enc_val(12), sers.enc_val([1, [2]])], "cuts": [1], "hint": 1, "conv": False})
+    cases += _session3_corpus()
     # ---- raw JSON framer ---- backslash runs before quotes cut at every position; texts exactly at the limit
     pk = [sers.enc_val("a\\\\\"}]\\"), sers.enc_val([]), sers.enc_val(None), sers.enc_val({"\\": "\"", "k": [[], {}]}), sers.enc_val(-12.5)]
     for i in range(1, 55):
@@ -239,9 +247,46 @@ def corpus() -> list[dict]:
     return cases
 
 
+def _session3_corpus() -> list[dict]:
+    """packets that keep the object handed to deserialize() (both base classes, both paths, several packets per read and drip
+    feed); terminators of 3 and 4 distinct bytes cut at every offset; CRLF packets ending with a lone CR / LF; composites"""
+    ev = sers.enc_val
+    out = []
+    for path in ("copy", "buffered"):
+        for hold in ("arg", "text"):
+            for hint, cuts in ((1, [9, 2, 1]), (64, [9, 2, 1]), (3, [1]), (16384, [100])):
+                out.append({"spec": {"k": "fixed", "size": 4, "hold": hold}, "path": path,
+                            "packets": [ev(b"pkt0"), ev(b"pkt1"), ev(b"pkt2")], "cuts": cuts, "hint": hint, "conv": False})
+            out.append({"spec": {"k": "autosep", "sep": "3c7c3e", "limit": 16, "check": True, "hold": hold}, "path": path,
+                        "packets": [ev(b"ab"), ev(b"c<"), ev(b"d|"), ev(b"e")], "cuts": [4, 1, 2, 7], "hint": 4, "conv": hold == "arg"})
+        for sephex in ("3c7c3e", "0d0a2e", "616261", "61626364", "0d0a0d0a"):
+            sep = bytes.fromhex(sephex)
+            first = b"first"
+            for j in range(1, len(sep)):
+                for tail in ([100], [1]):
+                    out.append({"spec": {"k": "autosep", "sep": sephex, "limit": 64, "check": True}, "path": path,
+                                "packets": [ev(first), ev(b"second"), ev(b"x")], "cuts": [len(first) + j] + tail, "hint": 8, "conv": False})
+        for nl in ("CRLF", "CR", "LF"):
+            pk = ["abc\r", "abc\n", "\r", "x\n\r", "y"] if nl == "CRLF" else ["abc\n" if nl == "CR" else "abc\r", "z"]
+            for keep in (False, True):
+                sp = {"k": "line", "newline": nl, "keep_end": keep, "encoding": "ascii", "limit": 16, "debug": keep}
+                e = sers.NEWLINES[nl].decode() if keep else ""
+                for cuts in ([1], [5, 1, 2], [100]):
+                    out.append({"spec": sp, "path": path, "packets": [ev(p + e) for p in pk], "cuts": cuts, "hint": 4, "conv": False})
+    js = {"k": "json", "use_lines": True, "limit": 64, "debug": True}
+    out.append({"spec": {"k": "stapled", "sent": js, "received": js}, "path": "copy",
+                "packets": [ev({"a": [1, "}"]}), ev(7), ev("x")], "cuts": [3, 1], "hint": 1, "conv": True})
+    for k in sers.FILE_TOYS:
+        for e in ("exception", "tuple"):
+            for path in ("copy", "buffered"):
+                out.append({"spec": {"k": k, "limit": 32, "expected": e, "debug": e == "tuple"}, "path": path,
+                            "packets": [ev(b"abcdef"), ev(b""), ev(b"gh")], "cuts": [3, 1, 4], "hint": 5, "conv": False})
+    return out
+
+
 def generate(rng, tier: str, boost: int):
     for _ in range((300 if tier == "quick" else 6000) * boost):
-        sephex = rng.choice(["0a", "0d0a", "7c7c", "616162", "6161", "616261"])
+        sephex = rng.choice(["0a", "0d0a", "7c7c", "616162", "6161", "616261", "3c7c3e", "61626364", "0d0a0d0a"])
         sep = bytes.fromhex(sephex)
         alphabet = bytes(set(sep)) + b"x"
         datas = []
@@ -253,7 +298,7 @@ def generate(rng, tier: str, boost: int):
         yield {"kind": "producer", "spec": {"k": "autosep", "sep": sephex, "limit": 64, "check": True}, "datas": datas}
     n = (2500 if tier == "quick" else 60000) * boost
     for _ in range(n):
-        spec = sers.gen_spec(rng)
+        spec = sers.gen_spec(rng, rich=True)
         buffered_ok = sers.is_buffered(spec)
         path = "buffered" if (buffered_ok and rng.random() < 0.5) else "copy"
         lim = sers.limit_of(spec) or 65536
@@ -262,10 +307,11 @@ def generate(rng, tier: str, boost: int):
         if sep is not None:
             # stay inside the zone both paths accept: |payload| + |sep| < limit   (C07)
             maxlen = max(1, min(12, lim - len(sep) - 1 - (len(sep) if sers.keep_end(spec) else 0)))
-        if spec["k"] in ("filetoy", "filepeek"):
+        filetoy = sers.recv_spec(spec)["k"] in sers.FILE_TOYS
+        if filetoy:
             maxlen = max(0, min(12, lim // 2 - 2))
         packets = [sers.gen_packet(rng, spec, maxlen) for _ in range(rng.randint(1, 6))]
-        if sers.limit_of(spec) is not None and spec["k"] not in ("filetoy", "filepeek"):
+        if sers.limit_of(spec) is not None and not filetoy:
             # byte length (not character count) decides: keep every produced frame strictly inside the limit
             frames = sd.produce(spec, packets)
             if any(len(f) >= lim for f in frames):
@@ -282,7 +328,7 @@ def generate(rng, tier: str, boost: int):
         if path == "buffered":
             cuts = [c for c in cuts if c > 0] or [1]
         hint = rng.choice([1, 2, 3, 8, 64, 16384])
-        if spec["k"] in ("filetoy", "filepeek"):
+        if filetoy:
             # generic wrapper: frame + one read must stay within the limit (C07 table)
             hint = min(hint, max(1, lim // 2))
             cuts = [min(c, max(1, lim // 2)) for c in cuts]
